@@ -155,7 +155,7 @@ class VThread:
     def start(self):
         # a library that spins (a macrostep that never ends) may start a timer / watcher thread per iteration: thousands of
         # parked OS threads slow everything down long before the watchdog fires - treated as the hang it is
-        if sum(1 for t in self.s.threads if t.started and not t.done) > 1500:
+        if sum(1 for t in self.s.threads if t.started and not t.done) > 6000:
             impl._HUNG[0] = True
             raise impl.Hang()
         self.started = True
